@@ -63,6 +63,7 @@ class Profile(object):
         self.alpha_ext = True       # extensible permitted alphabet, written (FROM(...), ...)
         self.valuerefs = True
         self.named = True           # named numbers / named bits
+        self.named_rate = 15        # percent of INTEGER types with named numbers
         self.ext_implied = True
         self.real_wc = False
         self.ref_constraints = True     # constraints written at a reference
@@ -91,6 +92,8 @@ class Profile(object):
         self.alias_chain_rate = 10      # percent of specs that get 'Ch1 ::= X', 'Ch2 ::= Ch1' and a user of the alias
         self.dup_names_rate = 8         # percent of specs in which two modules define different types of one name
         self.same_defaults_rate = 0     # percent of specs whose modules share tag and extensibility defaults
+        self.components_of_tagged = False   # COMPONENTS OF a type whose components carry hand-written tags (only for
+        #                                     checks whose oracle is the library itself: C13, C19)
         self.components_of_rate = 0     # percent of specs that get a 'CO ::= SEQUENCE { COMPONENTS OF X, ... }'
         self.big_size_rate = 8
         self.big_size_shapes = BIG_SIZE_SHAPES
@@ -237,12 +240,24 @@ class _G(object):
         t = Ty(k)
         P = self.p
         if k == 'INTEGER':
-            if P.named and self.chance(15):
-                names = self.d(st.lists(st.sampled_from(ENUM_NAMES), min_size=1, max_size=3,
+            if P.named and self.chance(P.named_rate):
+                # few names, so that different types name different numbers with the same identifier
+                names = self.d(st.lists(st.sampled_from(ENUM_NAMES[:6] * 3 + ENUM_NAMES), min_size=1, max_size=3,
                                         unique=True))
-                t.named = [(n, i * 3 - 2) for i, n in enumerate(names)]
+                start = self.pick([-2, -2, -20, 0, 1, 5, 90])
+                t.named = [(n, start + i * 3) for i, n in enumerate(names)]
             if (P.constraints and self.chance(60)) or P.require_bounded:
                 t.rng = self.int_range(mod)
+            if t.named and P.constraints and not P.require_bounded and self.chance(50):
+                # bounds written as named numbers of this very type (the same identifiers name other values in other
+                # types: the names come from a small pool and the values from the position)
+                vals = sorted(t.named, key=lambda nv: nv[1])
+                (ln, lv), (hn, hv) = vals[0], vals[-1]
+                if ln == hn:
+                    w = self.pick([0, 1, 7, 255, 1000])
+                    t.rng = Rng(lv, lv + w, lo_txt=ln) if self.chance(50) else Rng(lv - w, lv, hi_txt=ln)
+                else:
+                    t.rng = Rng(lv, hv, lo_txt=ln, hi_txt=hn)
         elif k == 'ENUMERATED':
             self.enum(t, mod)
         elif k == 'BIT STRING' and P.bit_fixed_max:
@@ -815,6 +830,9 @@ class _G(object):
             self.alias_chain()
         if P.refs and P.dup_names_rate and P.max_modules >= 2 and self.chance(P.dup_names_rate):
             self.dup_type_names()
+        if len(self.modules) > 1 and self.chance(50):
+            # the order of the modules in the text is not the alphabetical order of their names
+            self.modules.reverse()
         return Spec(self.modules)
 
     def dup_type_names(self):
@@ -934,7 +952,9 @@ class _G(object):
         for m in self.modules:
             for n, t in m.types:
                 if (t.kind in ('SEQUENCE', 'SET') and t.tag is None and t.raw is None and t.root
-                        and not t.root2 and all(x.ty.tag is None for x in t.root)
+                        and not t.root2
+                        and (all(x.ty.tag is None for x in t.root) or
+                             (self.p.components_of_tagged and all(mm.tagdefault != 'AUTOMATIC' for mm in self.modules)))
                         and 'extra-co' not in [x.name for x in t.root]
                         and 'co-first' not in [x.name for x in t.root]):
                     cands.append((m, n, t))
